@@ -109,6 +109,19 @@ def AInter.denote (i : AInter) : InterData := ⟨i.relative, i.isSection, digits
 /-- the number fits `i16` -/
 def AInter.ok (i : AInter) : Bool := digitsToNat i.digits ≤ 32767
 
+/-- `@ pre & ( ref ) post name … { … } (note)`: an ingredient whose `&` modifier carries an
+    intermediate reference; `pre` / `post` are the modifier characters written before the `&`
+    and after the `)`; `c.mods` is not used (must be empty) -/
+def spellIngredientI (pre post : List TK) (i : AInter) (ip : IPad) (c : AComp) (p : CPad) : List Tok :=
+  [tk .at ['@']] ++ (spellMods pre ++ [tk .and ['&']] ++ spellInter i ip ++ spellMods post) ++
+    ((c.name ++ p.n1 ++ spellAlias c.alias p) ++ spellBraces c.qty p ++ spellNote c.note)
+
+/-- side conditions: MODIFIERS and INTERMEDIATE_PREPARATIONS are on; the modifier characters
+    `pre & post` are distinct modifier characters; the number fits `i16`; the rest as `AComp.wf` -/
+def wfInter (cs : CharSpec) (e : Ext) (pre post : List TK) (i : AInter) (c : AComp) : Bool :=
+  c.wf cs e && c.mods.isEmpty && e.modifiers && e.has Gen.EXT_INTERMEDIATE_PREPARATIONS &&
+  (pre ++ .and :: post).all modKind && decide (pre ++ .and :: post).Nodup && i.ok
+
 /-! ### single-line blocks -/
 
 /-- kinds allowed in a section name: everything visible but `=` -/
